@@ -263,6 +263,36 @@ fn get_does_not_block() -> Option<String> {
     res
 }
 
+/// `get_or_init` with a panicking initialiser: the cell keeps (and still owns) its seed
+fn panicking_get_or_init(panics: usize) -> Option<String> {
+    let c = Arc::new(Counters::default());
+    let cell: OnceInitCell<Seed, Val> = OnceInitCell::new(Seed { c: c.clone(), panic_on_drop: false });
+    let mut bad = vec![];
+    for k in 0..panics {
+        let r = std::panic::catch_unwind(std::panic::AssertUnwindSafe(|| {
+            cell.get_or_init(|_| panic!("initialiser panics"));
+        }));
+        if r.is_ok() || cell.get().is_some() {
+            bad.push(format!("panicking get_or_init #{k} left the cell initialised"));
+        }
+        let d = c.seed_drops.load(Ordering::SeqCst);
+        if d != 0 {
+            bad.push(format!("after {} panicking get_or_init calls the seed was dropped {d} times (cell uninitialised)", k + 1));
+            break;
+        }
+    }
+    let v = cell.get_or_init(|_| Val { c: c.clone(), n: 5 }).n;
+    if v != 5 {
+        bad.push(format!("initialisation after the panics gave {v}"));
+    }
+    drop(cell);
+    let (sd, vd) = (c.seed_drops.load(Ordering::SeqCst), c.value_drops.load(Ordering::SeqCst));
+    if sd != 1 || vd != 1 {
+        bad.push(format!("{panics} panicking get_or_init calls, one success, cell dropped: seed dropped {sd} times, value {vd} times"));
+    }
+    if bad.is_empty() { None } else { Some(bad.join("; ")) }
+}
+
 /// a value type WITHOUT drop glue and a tracked seed: whatever happened before, dropping the cell
 /// must leave the seed dropped exactly once
 fn scenario_plain_value(outs: &[Out]) -> Option<String> {
@@ -352,6 +382,10 @@ pub fn run(a: &Args) {
             evals += 1;
             bad.extend(scenario(s, false, true));
         }
+    }
+    for k in 0..4 {
+        evals += 1;
+        bad.extend(panicking_get_or_init(k));
     }
     evals += 2;
     bad.extend(get_does_not_block());
